@@ -1796,9 +1796,18 @@ func findNextRequiredLandmarkRunes(input []rune, startAt, endAt int, landmark sy
 	for i := startAt; i < endAt; i++ {
 		for _, alt := range landmark.Alternatives {
 			if match, ok := requiredLandmarkAlternativeMatch(input, i, endAt, alt); ok {
+				// this is the first position at which the landmark occurs; whichever of its
+				// alternatives a match really uses (here or further on), it ends no earlier than
+				// this position plus the shortest alternative
 				minEnd := match.End
-				if len(alt.Literal) == 0 && alt.Set != nil && match.CoreStart+alt.MinRepeat < minEnd {
-					minEnd = match.CoreStart + alt.MinRepeat
+				for _, other := range landmark.Alternatives {
+					l := len(other.Literal)
+					if l == 0 {
+						l = other.MinRepeat
+					}
+					if match.CoreStart+l < minEnd {
+						minEnd = match.CoreStart + l
+					}
 				}
 				return match, minEnd, true
 			}
